@@ -439,9 +439,9 @@ impl Write for OneByteWriter {
 // ---------------------------------------------------------------------------
 // Families
 
-pub const FAMILIES: [&str; 21] = [
+pub const FAMILIES: [&str; 22] = [
     "truncation", "byte-substitution", "u32-field", "chunk-ops", "xml-mutation", "read-script-1", "read-script-2", "write-fault",
-    "attr-all-bytes", "xml-all-strings", "header-variants", "deep-xml", "chunk-splice", "one-byte-io", "chunk-payload-cut", "chunk-payload-delete-byte", "decode-after-failure", "xml-long-text", "bin-long-names", "zstd-size-fields", "write-benign",
+    "attr-all-bytes", "xml-all-strings", "header-variants", "deep-xml", "chunk-splice", "one-byte-io", "chunk-payload-cut", "chunk-payload-delete-byte", "decode-after-failure", "xml-long-text", "bin-long-names", "zstd-size-fields", "write-benign", "count-fields",
 ];
 
 const SUBST: [u8; 5] = [0x00, 0x01, 0x7f, 0x80, 0xff];
@@ -725,6 +725,55 @@ fn zstd_size_fields_file(which: usize, form: usize, declared: u64, header_true: 
     f
 }
 
+/// File offsets of every count field of an uncompressed binary file: the header's class and
+/// instance counts, each INST chunk's instance count, the SSTR and PRNT counts.
+fn count_field_offsets(bytes: &[u8]) -> Vec<usize> {
+    let mut out = vec![16, 20];
+    for (start, end) in chunk_table(bytes) {
+        let p = start + 16;
+        match &bytes[start..start + 4] {
+            b"INST" => {
+                if p + 8 <= end {
+                    let nl = u32::from_le_bytes(bytes[p + 4..p + 8].try_into().unwrap()) as usize;
+                    let off = p + 8 + nl + 1;
+                    if off + 4 <= end {
+                        out.push(off);
+                    }
+                }
+            }
+            b"PRNT" => {
+                if p + 5 <= end {
+                    out.push(p + 1);
+                }
+            }
+            b"SSTR" => {
+                if p + 8 <= end {
+                    out.push(p + 4);
+                }
+            }
+            _ => {}
+        }
+    }
+    out
+}
+
+const COUNT_LIES: [u32; 3] = [0x0100_0000, 0x7fff_ffff, 0xffff_ffff];
+
+/// every subset of 1..=3 count fields
+fn count_subsets(n: usize) -> Vec<Vec<usize>> {
+    let mut out = Vec::new();
+    for a in 0..n {
+        out.push(vec![a]);
+        for b in (a + 1)..n {
+            out.push(vec![a, b]);
+            for c in (b + 1)..n {
+                out.push(vec![a, b, c]);
+            }
+        }
+    }
+    out
+}
+
 fn xml_len(tier: Tier) -> u32 {
     if tier == Tier::Quick {
         5
@@ -863,6 +912,7 @@ impl Engine {
             18 => (4 * 2 * LONG_SIZES.len() * LONG_FILLS.len()) as u64,
             19 => (4 * 4 * 2 * ZSTD_SIZES.len()) as u64,
             20 => self.write_targets.iter().map(|t| t.2.min(400) as u64 * 3).sum(),
+            21 => self.bin.iter().filter(|&&f| self.corpus.files[f].desc.ends_with("/None")).map(|&f| (count_subsets(count_field_offsets(&self.corpus.files[f].bytes).len()).len() * COUNT_LIES.len()) as u64).sum(),
             _ => 0,
         }
     }
@@ -1135,6 +1185,21 @@ impl Engine {
                 let mut b = fb.bytes[..tb[j].0].to_vec();
                 b.extend_from_slice(&fa.bytes[ta[i].0..ta[i].1]);
                 b.extend_from_slice(&fb.bytes[tb[j].1..]);
+                judge_decode(Kind::Bin, &b, fam, false, out, &replay);
+            }
+            21 => {
+                // several count fields of one file state the same wrong (huge) number
+                let files: Vec<usize> = self.bin.iter().copied().filter(|&f| self.corpus.files[f].desc.ends_with("/None")).collect();
+                let per = |f: usize| (count_subsets(count_field_offsets(&self.corpus.files[f].bytes).len()).len() * COUNT_LIES.len()) as u64;
+                let (f, i) = self.locate(&files, &per, index);
+                let file = &self.corpus.files[f];
+                let offs = count_field_offsets(&file.bytes);
+                let subsets = count_subsets(offs.len());
+                let (subset, lie) = (&subsets[(i as usize) / COUNT_LIES.len()], COUNT_LIES[(i as usize) % COUNT_LIES.len()]);
+                let mut b = file.bytes.clone();
+                for k in subset {
+                    b[offs[*k]..offs[*k] + 4].copy_from_slice(&lie.to_le_bytes());
+                }
                 judge_decode(Kind::Bin, &b, fam, false, out, &replay);
             }
             20 => {
@@ -1423,7 +1488,7 @@ pub fn check(run: &Run) -> Value {
             {"family": "xml-all-strings", "case": "<a/>"},
         ],
         "exhaustive": res.abandoned.is_empty(),
-        "rule": "fault enumeration around the real decoders/encoders: every strict prefix of every corpus file; every single-byte substitution from a 5-value set and every single-bit flip at every offset; every chunk payload cut at every length and with every single byte deleted, re-framed consistently (uncompressed / LZ4 literals / raw zstd); every u32 window of every binary file set to 7 boundary values; every chunk deleted / duplicated / swapped / spliced from another file; every tag / attribute / text-node mutation of every XML file; every read() script with <=1 (thorough: <=2) deviations {Short(1), Short(half), Interrupted} and the one-byte reader; a failing sink at every output offset (Err and Ok(0)), a one-byte sink, and a sink that once answers with Interrupted / a one-byte short write (output must be complete and identical) or WouldBlock (must fail); all byte strings of length <=3 into Attributes::from_reader; all strings of length <=5 (thorough 6) over a 14-symbol XML alphabet into rbx_xml::from_str; all binary headers differing from a valid one in <=2 bytes over a 5-value alphabet; legal XML nested 1000..100000 deep; runs of 1..65537 bytes of one- to four-byte characters as stray text, CDATA, tag name and attribute value at every tag of every XML file, and as class name / property name / string value of hand-assembled binary files (well-formed, unknown type id, missing payload); hand-made Zstandard frames whose content-size field (absent / 2 / 4 / 8 bytes wide) and chunk header length state the same wrong size (10 sizes up to 2^64-1) for each of four chunk kinds. A case is one (family, index) pair.",
+        "rule": "fault enumeration around the real decoders/encoders: every strict prefix of every corpus file; every single-byte substitution from a 5-value set and every single-bit flip at every offset; every chunk payload cut at every length and with every single byte deleted, re-framed consistently (uncompressed / LZ4 literals / raw zstd); every u32 window of every binary file set to 7 boundary values; every chunk deleted / duplicated / swapped / spliced from another file; every tag / attribute / text-node mutation of every XML file; every read() script with <=1 (thorough: <=2) deviations {Short(1), Short(half), Interrupted} and the one-byte reader; a failing sink at every output offset (Err and Ok(0)), a one-byte sink, and a sink that once answers with Interrupted / a one-byte short write (output must be complete and identical) or WouldBlock (must fail); all byte strings of length <=3 into Attributes::from_reader; all strings of length <=5 (thorough 6) over a 14-symbol XML alphabet into rbx_xml::from_str; all binary headers differing from a valid one in <=2 bytes over a 5-value alphabet; legal XML nested 1000..100000 deep; runs of 1..65537 bytes of one- to four-byte characters as stray text, CDATA, tag name and attribute value at every tag of every XML file, and as class name / property name / string value of hand-assembled binary files (well-formed, unknown type id, missing payload); hand-made Zstandard frames whose content-size field (absent / 2 / 4 / 8 bytes wide) and chunk header length state the same wrong size (10 sizes up to 2^64-1) for each of four chunk kinds; every subset of 1..3 count fields (header class / instance counts, INST, SSTR, PRNT counts) of every uncompressed corpus file set to the same huge value. A case is one (family, index) pair.",
     })
 }
 
